@@ -68,7 +68,11 @@ func (b *Builder) AddLink(requestID graphsync.RequestID, link ipld.Link, linkAct
 // as well as whether the graphsync request responded with complete or partial
 // data.
 func (b *Builder) AddResponseCode(requestID graphsync.RequestID, status graphsync.ResponseStatusCode) {
-	b.completedResponses[requestID] = status
+	// a final status already queued in this message stays: a partial status added
+	// later (an update racing the end of the response) must not replace it
+	if prev, ok := b.completedResponses[requestID]; !ok || !prev.IsTerminal() || status.IsTerminal() {
+		b.completedResponses[requestID] = status
+	}
 	// make sure this completion goes out in next response even if no links are sent
 	_, ok := b.outgoingResponses[requestID]
 	if !ok {
